@@ -41,6 +41,12 @@ def verdict_rule(ck, F, rule):
 
 
 def body(ck, F, cfg):
+    # structural rules first (they do not depend on the symbolic run of the whole verifier)
+    flatten.check(ck, F, "verifier", "R02.2")
+    from . import C16
+
+    C16.constrain_rules(ck, F, "R02.2")
+    C16.callbacks_rule(ck, F, "R02.2")
     A = AN.verifier_scalars(F)
     I = A["I"]
     ck.fn(AN.H.P_VER + "verification_scalars")
@@ -50,14 +56,8 @@ def body(ck, F, cfg):
     compare_scalars(ck, "R02.1", A["scalars"], ref, I.bounds, proportional=True, where="src/r1cs/verifier.rs (ret.1 of Verifier::verification_scalars)")
     ck.sample({"sink": "ret.1 of verification_scalars", "segment B": str(A["scalars"].index(sp.Integer(0), I.bounds).e)})
     ck.sample({"sink": "H[0,n1)", "value": str(sp.expand(A["scalars"].index(2 + pad + REF.n1 + REF.n2 + isym("_j"), I.bounds.with_ub(isym("_j"), REF.n1)).e))})
-    # the hooked flatten summary is only valid if the verifier's flatten is the reference one
-    flatten.check(ck, F, "verifier", "R02.2")
     fl = I.flatten_calls
     ck.require(len(fl) == 1 and str(fl[0]["z"].e) == str(REF.Z), "R02.2", "flatten-uses-z", f"flattening must be called once with the challenge z; calls: {[(str(c['z']),) for c in fl]}")
-    # every constraint the circuit states is recorded (unconditionally, unchanged) on both roles
-    from . import C16
-
-    C16.constrain_rules(ck, F, "R02.2")
     verdict_rule(ck, F, "R02.3")
     ck.floor("combined-check segments", len([o for o in ck.obligations if o[0] == "R02.1" and o[2]]), 22)
 
